@@ -111,6 +111,7 @@ def guarded(f, *a, **k):
 
 # ================================================================ A: pure functions
 HEADER_A = '''Require Import Coord. From Coq Require Import List ZArith Bool. Import ListNotations. Open Scope Z_scope.
+Set Printing Width 1000000.  (* the (index, code) list must not be line-wrapped: common.run_shards reads it with a regex *)
 Definition oz_eqb (a b : option Z) := match a, b with Some x, Some y => x =? y | None, None => true | _, _ => false end.
 Fixpoint ozl_eqb (a b : list (option Z)) := match a, b with [], [] => true | x :: a', y :: b' => oz_eqb x y && ozl_eqb a' b' | _, _ => false end.
 Definition oozl_eqb (a b : option (list (option Z))) := match a, b with Some x, Some y => ozl_eqb x y | None, None => true | _, _ => false end.
@@ -348,6 +349,7 @@ def cols_term(cols):
 
 
 HEADER_B = '''Require Import Coord. From Coq Require Import List ZArith Bool. Import ListNotations. Open Scope Z_scope.
+Set Printing Width 1000000.  (* the (index, code) list must not be line-wrapped: common.run_shards reads it with a regex *)
 Definition oz_eqb (a b : option Z) := match a, b with Some x, Some y => x =? y | None, None => true | _, _ => false end.
 Fixpoint list_eqb {A} (eq : A -> A -> bool) (a b : list A) : bool :=
   match a, b with [], [] => true | x :: a', y :: b' => eq x y && list_eqb eq a' b' | _, _ => false end.
@@ -746,6 +748,7 @@ def key_read(spec, code):
 
 # ================================================================ C: writers
 HEADER_C = '''Require Import Coord. From Coq Require Import List ZArith Bool. Import ListNotations. Open Scope Z_scope.
+Set Printing Width 1000000.  (* the (index, code) list must not be line-wrapped: common.run_shards reads it with a regex *)
 Definition oz_eqb (a b : option Z) := match a, b with Some x, Some y => x =? y | None, None => true | _, _ => false end.
 Fixpoint list_eqb {A} (eq : A -> A -> bool) (a b : list A) : bool :=
   match a, b with [], [] => true | x :: a', y :: b' => eq x y && list_eqb eq a' b' | _, _ => false end.
@@ -974,6 +977,7 @@ def key_write(spec, code):
 
 # ================================================================ D: named ranges
 HEADER_D = '''Require Import Coord. From Coq Require Import List ZArith Bool. Import ListNotations. Open Scope Z_scope.
+Set Printing Width 1000000.  (* the (index, code) list must not be line-wrapped: common.run_shards reads it with a regex *)
 Definition oz_eqb (a b : option Z) := match a, b with Some x, Some y => x =? y | None, None => true | _, _ => false end.
 Definition quad_eqb (a b : quad) := let '(x, y, z, t) := a in let '(x', y', z', t') := b in oz_eqb x x' && oz_eqb y y' && oz_eqb z z' && oz_eqb t t'.
 Definition ostr_eqb (a b : option str) := match a, b with Some x, Some y => str_eqb x y | None, None => true | _, _ => false end.
@@ -1039,11 +1043,11 @@ def gen_named(rng, tier):
     specs = []
     for n in NAME_EDGE:
         specs.append(dict(k="nmake", n=n, area=[1, 1, 2, 2], form="s"))
-    for _ in range(500 if tier == "quick" else 12000):
+    for _ in range(500 if tier == "quick" else 8000):
         x, y = rng.randrange(0, rng.choice([5, 30, 800, 20000])), rng.randrange(0, rng.choice([5, 120, 10 ** 6]))
         zz, t = (x, y) if rng.random() < .3 else (x + rng.randrange(0, 40), y + rng.randrange(0, 40))
         specs.append(dict(k="nmake", n=gen_name(rng), area=[x, y, zz, t], form=rng.choice("st")))
-    for _ in range(250 if tier == "quick" else 5000):
+    for _ in range(250 if tier == "quick" else 4000):
         def okname():
             for _ in range(50):
                 n = gen_name(rng).strip()
@@ -1292,7 +1296,7 @@ def run(tier, seed, replay=None):
         for f in sorted((common.ROOT / "corpus" / PROP).glob("*.json")):
             d = json.load(open(f)); specs[d["group"]].append(d["case"]); corpus_n += 1
         specs["A"] += gen_pure(tier, rng)
-        nB, nC = (2500, 1200) if tier == "quick" else (30000, 20000)
+        nB, nC = (2500, 1200) if tier == "quick" else (20000, 12000)
         exh = gen_read_exhaustive(1 if tier == "quick" else 3)
         exhaustive_B = len(exh)
         specs["B"] += exh
